@@ -159,6 +159,55 @@ pub fn relate_case(cx: &mut Ctx, n: u64, case: &Value) {
             chk(cx, "C01", "relate_variant", case, format!("variant {name} of b"), relate_cc(&a, &vb), &im);
         }
     }
+    // the accessors of the returned IntersectionMatrix: get, matches and the named predicates is_* (functions of the matrix, by
+    // their OGC definitions - TLC computed them from the true matrix and the true dimensions of the operands)
+    if case.get("named").is_some() && (cx.wants("C01") || cx.wants("C02")) {
+        use geo::coordinate_position::CoordPos;
+        use geo::dimensions::Dimensions;
+        let gb = |k: &str| case["named"][k].as_bool().unwrap();
+        let ix = case["pred"]["i"].as_bool().unwrap();
+        let r = guard(|| {
+            let m = a.geometry().relate(&b.geometry());
+            let named = [("is_disjoint", m.is_disjoint(), gb("disjoint")), ("is_intersects", m.is_intersects(), ix),
+                         ("is_within", m.is_within(), case["pred"]["w"].as_bool().unwrap()), ("is_contains", m.is_contains(), case["pred"]["c"].as_bool().unwrap()),
+                         ("is_covers", m.is_covers(), gb("covers")), ("is_coveredby", m.is_coveredby(), gb("coveredby")), ("is_equal_topo", m.is_equal_topo(), gb("equals")),
+                         ("is_touches", m.is_touches(), gb("touches")), ("is_crosses", m.is_crosses(), gb("crosses")), ("is_overlaps", m.is_overlaps(), gb("overlaps"))];
+            let bad: Vec<String> = named.iter().filter(|(_, got, want)| got != want).map(|(n, got, want)| format!("{n} = {got}, want {want}")).collect();
+            // get(): entry by entry
+            let pos = [CoordPos::Inside, CoordPos::OnBoundary, CoordPos::Outside];
+            let mut cells = String::new();
+            for p in pos { for q in pos { cells.push(match m.get(p, q) { Dimensions::Empty => 'F', Dimensions::ZeroDimensional => '0', Dimensions::OneDimensional => '1', Dimensions::TwoDimensional => '2' }); } }
+            // matches(): the matrix itself, its T / F / * generalisations, and every pattern that contradicts it in one place
+            let t_pat: String = im.chars().map(|c| if c == 'F' { 'F' } else { 'T' }).collect();
+            let mut mbad = vec![];
+            if !matches!(m.matches(&im), Ok(true)) { mbad.push(format!("matches({im})")); }
+            if !matches!(m.matches(&t_pat), Ok(true)) { mbad.push(format!("matches({t_pat})")); }
+            if !matches!(m.matches("*********"), Ok(true)) { mbad.push("matches(*********)".to_string()); }
+            for k in 0..9 {
+                let star: String = im.chars().enumerate().map(|(i, c)| if i == k { c } else { '*' }).collect();
+                if !matches!(m.matches(&star), Ok(true)) { mbad.push(format!("matches({star})")); }
+                let flip: String = t_pat.chars().enumerate().map(|(i, c)| if i == k { if c == 'F' { 'T' } else { 'F' } } else { '*' }).collect();
+                if !matches!(m.matches(&flip), Ok(false)) { mbad.push(format!("matches({flip}) must be false")); }
+                let wrong_dim: String = im.chars().enumerate().map(|(i, c)| if i == k { match c { 'F' => '0', '0' => '1', '1' => '2', _ => '1' } } else { '*' }).collect();
+                if !matches!(m.matches(&wrong_dim), Ok(false)) { mbad.push(format!("matches({wrong_dim}) must be false")); }
+            }
+            // (a pattern with an invalid letter is only rejected if matching gets that far: "FFFFFFFFX" is answered Ok(false)
+            // when an earlier entry already differs - lazily validated, not judged here; a pattern of the wrong length is an error)
+            if m.matches("12").is_ok() { mbad.push("matches accepts a pattern that is not 9 characters long".to_string()); }
+            (bad, cells, mbad)
+        });
+        for prop in ["C01", "C02"] {
+            if !cx.wants(prop) { continue; }
+            match &r {
+                Ok((bad, cells, mbad)) => {
+                    if bad.is_empty() { cx.ok("matrix_named_predicates"); } else { cx.bad(prop, "matrix_named_predicates", case, json!({"what": "IntersectionMatrix::is_* of relate(a, b)", "wrong": bad, "matrix": im})); }
+                    if *cells == im { cx.ok("matrix_get"); } else { cx.bad(prop, "matrix_get", case, json!({"what": "IntersectionMatrix::get, entry by entry", "got": cells, "want": im})); }
+                    if mbad.is_empty() { cx.ok("matrix_matches"); } else { cx.bad(prop, "matrix_matches", case, json!({"what": "IntersectionMatrix::matches", "wrong": mbad, "matrix": im})); }
+                }
+                Err(p) => cx.bad(prop, "matrix_named_predicates", case, json!({"what": "panic", "got": p})),
+            }
+        }
+    }
     if cx.wants("C01") || cx.wants("C13") {
         let prop = if cx.wants("C01") { "C01" } else { "C13" };
         // C13 (commutation): the mapped answer must equal the implementation's own unmapped answer
